@@ -988,6 +988,7 @@ fn dump_crate<'tcx>(tcx: TyCtxt<'tcx>, name: &str) -> J {
     }
 
     let mut fns = Vec::new();
+    let mut const_bodies = Vec::new();
     let mut skipped = Vec::new();
     for ldid in tcx.mir_keys(()).iter() {
         let did = ldid.to_def_id();
@@ -1017,6 +1018,20 @@ fn dump_crate<'tcx>(tcx: TyCtxt<'tcx>, name: &str) -> J {
                 ("promoted", J::Arr(promoted.iter().map(|b| cx.body(did, b)).collect())),
             ]));
             continue;
+        }
+        if matches!(
+            kind,
+            DefKind::Const { .. } | DefKind::AssocConst { .. } | DefKind::Static { .. } | DefKind::AnonConst | DefKind::InlineConst
+        ) {
+            // initialiser bodies of constants and statics (evaluated at compile time by the analysed toolchain)
+            let body = tcx.mir_for_ctfe(*ldid);
+            let (sp, _) = span_json(tcx, tcx.def_span(did));
+            const_bodies.push(J::obj(vec![
+                ("path", J::Str(tcx.def_path_str(did))),
+                ("kind", J::Str(format!("{:?}", kind))),
+                ("sp", J::Str(sp)),
+                ("body", cx.body(did, body)),
+            ]));
         }
         if !matches!(kind, DefKind::Fn | DefKind::AssocFn) {
             skipped.push(J::obj(vec![
@@ -1213,6 +1228,7 @@ fn dump_crate<'tcx>(tcx: TyCtxt<'tcx>, name: &str) -> J {
             J::Arr(v)
         }),
         ("skipped_mir_keys", J::Arr(skipped)),
+        ("const_bodies", J::Arr(const_bodies)),
         ("fns", J::Arr(fns)),
     ])
 }
